@@ -673,11 +673,12 @@ fn main() {
     if on("derive") {
         let level = if thorough { 2 } else { 1 };
         let h = &hcx;
-        let part = vcore::parallel(vec![0, 1, 2, 3], threads.min(4), mk, |i, rep| match i {
+        let part = vcore::parallel(vec![0, 1, 2, 3, 4], threads.min(5), mk, |i, rep| match i {
             0 => run_derive::<DFwd>(h, level, rep),
             1 => run_derive::<DRev>(h, level, rep),
             2 => run_derive::<DUnit>(h, level.max(3), rep),
-            _ => run_derive::<DRevUnit>(h, level.max(3), rep),
+            3 => run_derive::<DRevUnit>(h, level.max(3), rep),
+            _ => run_derive::<DRevFirst>(h, level, rep),
         });
         total.merge(part);
         bound["derive_structs"] = json!(DERIVED_NAMES);
@@ -754,7 +755,7 @@ fn main() {
     bound["hostile"] = json!({"all_byte_strings_up_to": 3, "length4_alphabet": if on("bytes4") { alphabet4().len() } else { 0 }, "damaged_key_schema_runs": if on("damaged") { damaged_items(thorough).len() } else { 0 }});
     bound["sections"] = json!(sections);
     total.bound = bound;
-    total.rule = "typed: for both crates every schema of 1..3 elements over the crate's element types (tuple_key: unit,u32,u64,i32,i64,string x ascending/descending, two field-number profiles; tuple_key2: unit,u8..u64,i8..i64,string,bytes ascending) and every tuple of the cartesian product of per-element boundary domains (level by schema length, see bound): decode(encode(t)) = t; for every unordered pair of tuples the byte order of the encodings equals the element-wise order of the tuples (native Ord per element, reversed for descending elements); for schemas of <= 2 elements and every extension by one element of any type: enc(t) < enc(t+y) < enc(u) for every u > t. derive: the same through four #[derive(TypedTupleKey)] structs, plus equality with the direct API. bytes3/bytes4/damaged (child processes): every byte string of length <= 3 (and length 4 over a structural alphabet in the thorough tier) is given to the iterator, every typed parser sequence of <= 3 elements, every value parser behind a valid tag, the element decoders and the schema walker of tuple_key and to every typed parser sequence and the boundary scanner of tuple_key2; every truncation and every 1-byte mutation (all 255 other values; for the three-element keys of the thorough tier the structural alphabet plus the original byte with bit 0, bit 7 or all bits flipped) of every valid key is parsed with the key's own schema; Ok and Err are both fine, a panic or a dead child is a violation. distinct (states) = distinct (schema, tuple) inputs, distinct hostile strings of length <= 2 or accepted by a typed parser, distinct damaged keys; non-trivial = tuples that took part in a comparison decided after the first element or by a prefix relation, hostile strings accepted by a typed parser; outcomes = distinct (program, result class) observations and finding signatures.".into();
+    total.rule = "typed: for both crates every schema of 1..3 elements over the crate's element types (tuple_key: unit,u32,u64,i32,i64,string x ascending/descending, two field-number profiles; tuple_key2: unit,u8..u64,i8..i64,string,bytes ascending) and every tuple of the cartesian product of per-element boundary domains (level by schema length, see bound): decode(encode(t)) = t; for every unordered pair of tuples the byte order of the encodings equals the element-wise order of the tuples (native Ord per element, reversed for descending elements); for schemas of <= 2 elements and every extension by one element of any type: enc(t) < enc(t+y) < enc(u) for every u > t. derive: the same through five #[derive(TypedTupleKey)] structs (one with #[reverse] written before #[tuple_key(N)]), plus equality with the direct API. bytes3/bytes4/damaged (child processes): every byte string of length <= 3 (and length 4 over a structural alphabet in the thorough tier) is given to the iterator, every typed parser sequence of <= 3 elements, every value parser behind a valid tag, the element decoders and the schema walker of tuple_key and to every typed parser sequence and the boundary scanner of tuple_key2; every truncation and every 1-byte mutation (all 255 other values; for the three-element keys of the thorough tier the structural alphabet plus the original byte with bit 0, bit 7 or all bits flipped) of every valid key is parsed with the key's own schema; Ok and Err are both fine, a panic or a dead child is a violation. distinct (states) = distinct (schema, tuple) inputs, distinct hostile strings of length <= 2 or accepted by a typed parser, distinct damaged keys; non-trivial = tuples that took part in a comparison decided after the first element or by a prefix relation, hostile strings accepted by a typed parser; outcomes = distinct (program, result class) observations and finding signatures.".into();
     total.assumptions = vec![
         "both tuples of a pair use the same field numbers (tuple_key) -- the property compares tuples of one type sequence".into(),
         "element values outside the boundary domains are not covered".into(),
